@@ -383,9 +383,20 @@ def build_ods(seed: int, feature: str | None = None, twin: bool = False):
         for i in range(rows):
             cells, grow = [], []
             j = 0
+            # a totals row that sums to zero: the last row holds only 0 / 0.0 / false values
+            zero_row = i == rows - 1 and not is_f and rows >= 3 and rng.random() < 0.2
             while j < cols:
                 guard = j == 0 or (i == 0) or (j == cols - 1 and i == rows - 1)
                 k = rng.random()
+                if zero_row:
+                    z = rng.choice([("0", 0), ("0.0", 0.0), (None, False)])
+                    if z[0] is not None:
+                        cells.append(f'<table:table-cell office:value-type="float" office:value="{z[0]}"><text:p>{z[0]}</text:p></table:table-cell>')
+                    else:
+                        cells.append('<table:table-cell office:value-type="boolean" office:boolean-value="false"><text:p>FALSE</text:p></table:table-cell>')
+                    grow.append({"v": z[1]})
+                    j += 1
+                    continue
                 if is_f and feature == "repeated-cell" and i == 1 and j == 0 and cols >= 3:
                     t = exp.text(tk.new("c"), s)
                     if twin:
@@ -428,6 +439,11 @@ def build_ods(seed: int, feature: str | None = None, twin: bool = False):
                 elif k < 0.8:
                     v = rng.choice([0.5, 1.25, -3.75, 1234.5])
                     cells.append(f'<table:table-cell office:value-type="float" office:value="{v}"><text:p>{v}</text:p></table:table-cell>')
+                    grow.append({"v": v})
+                elif k < 0.83:
+                    # legal xsd:double spellings of office:value: exponent notation with and without a decimal point, zero values
+                    lit, v = rng.choice([("1E+20", 1e20), ("5e-05", 5e-05), ("1E+3", 1000.0), ("6.02E+23", 6.02e23), ("0", 0), ("0.0", 0.0), ("-0", 0), ("+7", 7), ("1.", 1.0), (".5", 0.5)])
+                    cells.append(f'<table:table-cell office:value-type="float" office:value="{lit}"><text:p>{lit}</text:p></table:table-cell>')
                     grow.append({"v": v})
                 elif k < 0.87:
                     v = rng.random() < 0.5
